@@ -60,6 +60,32 @@ def _opaque(t):
     return isinstance(t, tuple) and bool(t) and t[0] in ("acc", "carried", "after", "unknown", "mutated")
 
 
+def pure_helper_resolver(pkg, cls):
+    """name -> FunctionDef of a helper method of `cls` that may be read as the value it returns (valueflow `resolver`): any method
+    except the anchors, provided it leaves its arguments alone (an in-place edit of a list handed in would be lost in the value view)"""
+    def resolver(name, _pkg=pkg):
+        _, f = _pkg.resolve(cls, name)
+        if f is None or name in _ANCHORS:
+            return None
+        ps = {a.arg for a in f.args.args + f.args.kwonlyargs}
+        for n in ast.walk(f):
+            if isinstance(n, ast.Call) and isinstance(n.func, ast.Attribute) and n.func.attr in _MUTATORS:
+                b = n.func.value
+                while isinstance(b, (ast.Attribute, ast.Subscript)):
+                    b = b.value
+                if isinstance(b, ast.Name) and b.id in ps:
+                    return None
+            if isinstance(n, (ast.Assign, ast.AugAssign, ast.AnnAssign, ast.Delete)):
+                for t in (n.targets if isinstance(n, (ast.Assign, ast.Delete)) else [n.target]):
+                    b = t
+                    while isinstance(b, (ast.Attribute, ast.Subscript)):
+                        b = b.value
+                    if b is not t and isinstance(b, ast.Name) and b.id in ps:
+                        return None
+        return f
+    return resolver
+
+
 class OdeModel:
     def __init__(self, tree):
         self.tree = tree
@@ -69,28 +95,8 @@ class OdeModel:
         def _resolver(name, _pkg=pkg):
             _, f = _pkg.resolve("TemplateLoader", name)
             return f
-        # ... and small loop-free helper FUNCTIONS (`self._without(lst, x)` returning a value) are read as the value they return,
-        # provided they leave their arguments alone (an in-place edit of a list handed in would be lost in the value view)
-        def _pure_resolver(name, _pkg=pkg):
-            _, f = _pkg.resolve("TemplateLoader", name)
-            if f is None or name in _ANCHORS:
-                return None
-            ps = {a.arg for a in f.args.args + f.args.kwonlyargs}
-            for n in ast.walk(f):
-                if isinstance(n, ast.Call) and isinstance(n.func, ast.Attribute) and n.func.attr in _MUTATORS:
-                    b = n.func.value
-                    while isinstance(b, (ast.Attribute, ast.Subscript)):
-                        b = b.value
-                    if isinstance(b, ast.Name) and b.id in ps:
-                        return None
-                if isinstance(n, (ast.Assign, ast.AugAssign, ast.AnnAssign, ast.Delete)):
-                    for t in (n.targets if isinstance(n, (ast.Assign, ast.Delete)) else [n.target]):
-                        b = t
-                        while isinstance(b, (ast.Attribute, ast.Subscript)):
-                            b = b.value
-                        if b is not t and isinstance(b, ast.Name) and b.id in ps:
-                            return None
-            return f
+        # ... and small loop-free helper FUNCTIONS (`self._without(lst, x)` returning a value) are read as the value they return
+        _pure_resolver = pure_helper_resolver(pkg, "TemplateLoader")
         # ... and a helper METHOD with loops whose call is a whole statement (`jac = self._build(n, entries)`) is replaced by its
         # statements (parameters renamed to the arguments, locals made unique): an extracted block is still this code
         import copy as _copy
@@ -221,6 +227,13 @@ class OdeModel:
         v = simp(v)
         if v == ("call", ("global", "len"), (("acc", self.RHSNAME),), ()):
             return True         # rhs is created as ['0.0'] * n_eqns (C01.R1) and only its entries are re-assigned
+        if v[0] == "call" and v[1] == ("global", "len") and len(v[2]) == 1 and not v[3] and v[2][0][0] == "binop" and v[2][0][1] == "Mult":
+            # len([c] * n) is n (n_eqns >= 1): the length of the RHS table read where the table is a helper's parameter
+            a, b = v[2][0][2], v[2][0][3]
+            if b[0] == "list":
+                a, b = b, a
+            if a[0] == "list" and len(a[1]) == 1 and a[1][0][0] != "star":
+                return self.is_n_eqns(b)
         if v[0] == "call" and v[1] == ("global", "max") and len(v[2]) == 2 and not v[3]:
             a, b = v[2]
             if a == ("const", 1):
